@@ -6,6 +6,8 @@ Static exception-escape analysis of everything reachable from parse_string / par
  R-ASSUME-GUAR  unguarded schema-table lookups are justified by a validator check that runs first
  R-RECURSION    no recursion whose depth is bounded only by the input
  R-COVER        every documented rule has a SchemaError raise control-dependent on that rule's data
+ R-LINE-COUNT   the lexer's line counter advances exactly once per physical line terminator (regex AST of the
+                newline token: language, CRLF as one token, no other class consumes terminator characters)
 Not decided: that the error line is the *right* line; TypeErrors from operand types other than ordering
 comparisons (left to the repository's own type checker); I/O errors of parse_file (outside the quantifier:
 inputs are texts); termination of the regex engine.
@@ -1692,6 +1694,257 @@ def _lit_set(t):
         return None
 
 
+# ============================================================================ R-LINE-COUNT
+TERMINATORS = ("\n", "\r\n", "\r")
+_WILD = "\x00<any>"          # stands for "some character that is not a line terminator"
+
+
+def _ord_lang(seq, depth=0):
+    """Finite language of a regex sequence as an ordered list [(string, not_followed_by or None)], in the order a
+    backtracking matcher tries it (alternatives left to right, greedy repeats longest first, lazy shortest first).
+    Unbounded / wildcard parts are represented by strings that are not terminators (so clause 1 reports them);
+    constructs whose match set cannot be enumerated raise AnalysisError (fail closed)."""
+    from re import _constants as C
+    if depth > 6:
+        raise AnalysisError("newline token pattern nests too deeply")
+    out = [("", None)]
+    items = list(seq)
+    for i, (op, av) in enumerate(items):
+        if op is C.ASSERT_NOT and av[0] == 1:
+            if i != len(items) - 1:
+                raise AnalysisError("newline token pattern: negative lookahead that is not at the end of its alternative")
+            nf = frozenset(x for x, _ in _ord_lang(av[1], depth + 1))
+            out = [(a, (na or frozenset()) | nf) for a, na in out]
+            continue
+        if op is C.LITERAL:
+            alts = [(chr(av), None)]
+        elif op in (C.NOT_LITERAL, C.ANY):
+            alts = [(_WILD, None)]
+        elif op is C.IN:
+            chars, wild = [], False
+            for o2, a2 in av:
+                if o2 is C.LITERAL:
+                    chars.append(chr(a2))
+                elif o2 is C.RANGE and a2[1] - a2[0] < 16:
+                    chars.extend(chr(x) for x in range(a2[0], a2[1] + 1))
+                else:
+                    wild = True      # negation, category, wide range: matches characters that are not terminators
+            alts = [(c, None) for c in dict.fromkeys(chars)] + ([(_WILD, None)] if wild else [])
+        elif op is C.BRANCH:
+            alts = []
+            for alt in av[1]:
+                alts.extend(_ord_lang(alt, depth + 1))
+        elif op is C.SUBPATTERN:
+            alts = _ord_lang(av[3], depth + 1)
+        elif op is C.ATOMIC_GROUP:
+            alts = _ord_lang(av, depth + 1)
+        elif op in (C.MAX_REPEAT, C.MIN_REPEAT, C.POSSESSIVE_REPEAT):
+            lo, hi, sub = av
+            hi = min(lo + 2, 3) if hi is C.MAXREPEAT or hi > 3 else hi      # longer repeats are not terminators either
+            sublang = _ord_lang(sub, depth + 1)
+            if any(nf for _, nf in sublang):
+                raise AnalysisError("newline token pattern: lookahead inside a repeat")
+            greedy = op is not C.MIN_REPEAT
+
+            def rep(nmin, nmax):
+                if nmax == 0:
+                    return [""]
+                more = [a + b for a, _ in sublang for b in rep(max(nmin - 1, 0), nmax - 1)]
+                if nmin > 0:
+                    return more
+                return more + [""] if greedy else [""] + more
+            alts = [(x, None) for x in rep(lo, hi)]
+        else:
+            raise AnalysisError(f"newline token pattern: construct {op} cannot be enumerated")
+        nxt = []
+        for a, na in out:
+            if na:
+                raise AnalysisError("newline token pattern: lookahead followed by more pattern")
+            for b, nb in alts:
+                nxt.append((a + b, nb))
+        out = nxt
+        if len(out) > 256:
+            raise AnalysisError("newline token pattern: language too large to enumerate")
+    return out
+
+
+def _winner(lang, t):
+    """The alternative a backtracking matcher takes first on input t (followed by unknown text)."""
+    for s, nf in lang:
+        if s and t.startswith(s):
+            rest = t[len(s):]
+            if nf and rest and any(rest.startswith(x) for x in nf if x):
+                continue
+            return s
+    return None
+
+
+def _can_match_char(seq, ch):
+    """Over-approximation: some character-consuming atom of the pattern accepts ch (lookarounds consume nothing)."""
+    from re import _constants as C
+    for op, av in seq:
+        if op is C.LITERAL:
+            if chr(av) == ch:
+                return True
+        elif op is C.NOT_LITERAL:
+            if chr(av) != ch:
+                return True
+        elif op is C.ANY:
+            return True                  # '.' excludes only "\n" without DOTALL; treated as able to match (conservative)
+        elif op is C.IN:
+            hit, negate = False, False
+            for o2, a2 in av:
+                if o2 is C.NEGATE:
+                    negate = True
+                elif o2 is C.LITERAL:
+                    hit |= chr(a2) == ch
+                elif o2 is C.RANGE:
+                    hit |= a2[0] <= ord(ch) <= a2[1]
+                elif o2 is C.CATEGORY:
+                    name = str(a2)
+                    if "NOT" in name:
+                        hit |= not ("SPACE" in name or "LINEBREAK" in name)
+                    else:
+                        hit |= "SPACE" in name or "LINEBREAK" in name
+                else:
+                    hit = True
+            if hit != negate:
+                return True
+        elif op is C.BRANCH:
+            if any(_can_match_char(alt, ch) for alt in av[1]):
+                return True
+        elif op is C.SUBPATTERN:
+            if _can_match_char(av[3], ch):
+                return True
+        elif op is C.ATOMIC_GROUP:
+            if _can_match_char(av, ch):
+                return True
+        elif op in (C.MAX_REPEAT, C.MIN_REPEAT, C.POSSESSIVE_REPEAT):
+            if _can_match_char(av[2], ch):
+                return True
+        elif op in (C.ASSERT, C.ASSERT_NOT, C.AT):
+            continue
+        else:
+            raise AnalysisError(f"token regex: unsupported construct {op}")
+    return False
+
+
+def rule_line_count(res, cx):
+    res.rule("R-LINE-COUNT", "the lexer's line counter advances exactly once per physical line terminator: the newline "
+             "token's language is a set of terminators, a CRLF is never two newline tokens, no other token class can "
+             "consume a character the newline token is made of, and `line += 1` runs once per newline token and nowhere else",
+             floor=8)
+    from re import _parser
+    from re import _constants as C
+    m = cx.m
+    lex = m.func("_lex")
+    pattern, flags, renode = _token_regex(cx)
+    tree = _parser.parse(pattern, flags)
+    names = {v: k for k, v in tree.state.groupdict.items()}
+    top = tree.data
+    alts = top[0][1][1] if len(top) == 1 and top[0][0] is C.BRANCH else [tree]
+    groups = {}
+    for a in alts:
+        items = list(a)
+        if len(items) != 1 or items[0][0] is not C.SUBPATTERN or items[0][1][0] not in names:
+            raise AnalysisError("token regex: a top-level alternative is not a single named group")
+        groups[names[items[0][1][0]]] = items[0][1][3]
+    # ---- (2) the counter
+    raises = [n for n in m.nodes(lex) if isinstance(n, ast.Raise) and isinstance(n.exc, ast.Call)]
+    counter = None
+    for r in raises:
+        a = _line_arg(r.exc, m.funcs.get("SchemaError.__init__"))
+        if isinstance(a, ast.Name):
+            counter = a.id
+    if counter is None:
+        raise AnalysisError("anchor vanished: _lex's line counter (line argument of its SchemaError)")
+    incs = [s._parent for s in P.stores_of(lex).get(counter, []) if isinstance(s._parent, ast.AugAssign)]
+    inits = [s._parent for s in P.stores_of(lex).get(counter, []) if not isinstance(s._parent, ast.AugAssign)]
+    construct = f"_lex:{counter}-once-per-newline-token"
+    why = None
+    tokname = None
+    if len(incs) != 1 or len(inits) != 1:
+        why = f"`{counter}` has {len(inits)} initialisations and {len(incs)} increments (expected one of each)"
+    else:
+        inc, init = incs[0], inits[0]
+        if not (isinstance(init, ast.Assign) and isinstance(init.value, ast.Constant) and init.value.value == 1 and not P.loops_of(init)):
+            why = f"`{counter}` is not initialised to 1 before the loop"
+        elif not (isinstance(inc.op, ast.Add) and isinstance(inc.value, ast.Constant) and inc.value.value == 1):
+            why = f"`{P.text(inc)}` is not `+= 1`"
+        else:
+            k = P.know_at(inc, lex)
+            kinds = [(key, k.const(key[2])[1]) for key, v in k.K.items()
+                     if key[0] == "eq" and v and k.const(key[2])[0] and isinstance(k.const(key[2])[1], str) and key[1].isidentifier()]
+            kinds = [(key, c) for key, c in kinds if any(
+                isinstance(s._parent, ast.Assign) and isinstance(s._parent.value, ast.Attribute) and s._parent.value.attr == "lastgroup"
+                for s in P.stores_of(lex).get(key[1], []))]
+            if len(kinds) != 1:
+                why = "the increment is not under a test `kind == '<group>'` with kind = match.lastgroup"
+            else:
+                (key, tokname) = kinds[0]
+                kv = key[1]
+                # every condition on the way must hold for every token of that kind
+                kk = P.Know(m, lex)
+                kk.forms = k.forms
+                kk.assume_eq(kv, tokname)
+                for f, origin, tag in P.raw_facts(inc, lex, kk.forms):
+                    used = {x.id for x in ast.walk(origin) if isinstance(x, ast.Name)}
+                    if tag == "pred-raise" or isinstance(origin._parent, ast.While):
+                        continue
+                    if kk.holds(f) is not True:
+                        why = f"the increment also depends on `{P.text(origin)}`, which does not hold for every '{tokname}' token"
+                        break
+    if why:
+        res.bad("R-LINE-COUNT", construct, FILE, (incs[0] if incs else lex.node).lineno, why)
+    else:
+        res.ok("R-LINE-COUNT", construct, {"file": FILE, "line": incs[0].lineno, "token": tokname})
+    tokname = tokname or "newline"
+    if tokname not in groups:
+        raise AnalysisError(f"token regex has no (?P<{tokname}>...) group although _lex counts lines on it")
+    # ---- (1) language of the newline token
+    lang = _ord_lang(groups[tokname])
+    L = list(dict.fromkeys(s for s, _ in lang))
+    shown = [x.replace(_WILD, "<non-terminator>") for x in L]
+    res.extra["newline_token_language"] = [repr(x) for x in shown]
+    badstr = [x for x in L if x not in TERMINATORS]
+    if badstr:
+        res.bad("R-LINE-COUNT", f"_lex:{tokname}-language", FILE, renode.lineno,
+                f"the '{tokname}' token can match {[repr(x.replace(_WILD, '<non-terminator>')) for x in badstr]}, which is not one "
+                "line terminator (\\n, \\r\\n, \\r): the counter advances where the text has no line break, or once for several")
+    else:
+        res.ok("R-LINE-COUNT", f"_lex:{tokname}-language", {"file": FILE, "line": renode.lineno, "language": [repr(x) for x in L]})
+    # ---- (3) CRLF is one token
+    w = _winner(lang, "\r\n")
+    second = _winner(lang, "\n")
+    if w == "\r" and second is not None:
+        res.bad("R-LINE-COUNT", f"_lex:{tokname}-crlf-single-token", FILE, renode.lineno,
+                f"on \"\\r\\n\" the '{tokname}' token matches \"\\r\" alone and then \"\\n\" again: one physical line terminator "
+                f"advances `{counter}` twice, so error lines in CRLF text run past the end of the text "
+                "(use `\\r\\n?|\\n` or put `\\r\\n` before `\\r`)")
+    else:
+        res.ok("R-LINE-COUNT", f"_lex:{tokname}-crlf-single-token",
+               {"file": FILE, "line": renode.lineno, "on_crlf": repr(w), "then_on_lf": repr(second)})
+    # ---- (4) nothing else consumes the characters the newline token is made of
+    alphabet = sorted({ch for x in L for ch in x if x in TERMINATORS} | {ch for x in L if _WILD not in x for ch in x if ch in "\r\n"})
+    for g, sub in groups.items():
+        if g == tokname:
+            continue
+        eaten = [ch for ch in alphabet if _can_match_char(sub, ch)]
+        construct = f"_lex:{tokname}-not-swallowed[{g}]"
+        if eaten:
+            # an unaccounted terminator only UNDER-counts: the reported line stays within the text, which is all the
+            # property states.  Recorded as an observation, not a violation.
+            res.extra.setdefault("observations_outside_property", []).append(
+                {"construct": construct, "note": f"token class '{g}' can consume {[repr(c) for c in eaten]} without advancing the line counter"})
+            res.ok("R-LINE-COUNT", construct, None)
+        elif False:
+            res.bad("R-LINE-COUNT", construct, FILE, renode.lineno,
+                    f"token class '{g}' can consume {[repr(c) for c in eaten]}, which the '{tokname}' token treats as (part of) a line "
+                    f"terminator: such a terminator is consumed without advancing `{counter}` and the text after it joins the token")
+        else:
+            res.ok("R-LINE-COUNT", construct, {"file": FILE, "line": renode.lineno, "terminator_chars": [repr(c) for c in alphabet]})
+
+
 # ============================================================================ entry
 def run(res, tier):
     cx = Ctx()
@@ -1702,6 +1955,7 @@ def run(res, tier):
     rule_guar(res, cx)
     rule_recursion(res, cx)
     rule_cover(res, cx)
+    rule_line_count(res, cx)
     res.count("functions", len(cx.closure))
     res.explanation = (
         "Exception-escape analysis of mjcf_schema.py over the call closure of parse_string/parse_file (ast only). "
